@@ -50,6 +50,10 @@ def families(rnd):
     out.append(("word_nested_grouping", [("alt", [("seq", [("sub", [L("--x="), ("alt", [L("p"), ("alt", [L("q"), L("t")])])]), L("r")]),
                                                   ("seq", [w("--x=", ["p", "q", "t"]), L("s")])])], []))
     out.append(("word_optional_vs_alt", [("alt", [("seq", [("sub", [L("-v"), ("opt", L("v"))]), L("r")]), ("seq", [L("-v"), L("s")])])], []))
+    out.append(("word_in_earlier_branch_than_literals", [("fb", [w("--color=", ["always", "never"]), L("plain"), L("mono")])], []))
+    out.append(("word_identical_two_variants", [("seq", [w("--opt=", ["a", "b"]), L("x")]), ("seq", [w("--opt=", ["a", "b"]), L("y")])], []))
+    out.append(("word_identical_two_definitions", [("alt", [("seq", [R("FIRST"), L("x")]), ("seq", [R("SECOND"), L("y")])])],
+                [("FIRST", "", w("--opt=", ["a", "b"])), ("SECOND", "", w("--opt=", ["a", "b"]))]))
     out.append(("word_repeat_two_variants", [("seq", [w("k=", ["1", "2"]), L("r")]), ("seq", [w("k=", ["2", "1"]), L("s")])], []))
     return out
 
@@ -97,7 +101,8 @@ def run(tier):
         if kinds == "lit/lit":
             sig["differ_in"] = "level" if l["lv"] != rr["lv"] else ("description" if (l["d"], l["hd"]) != (rr["d"], rr["hd"]) else "nothing")
         elif kinds == "sub/sub":
-            sig["differ_in"] = "level" if l["lv"] != rr["lv"] else "expression"
+            same_auto = l["sub"] and rr["sub"] and json.dumps(r["obs"]["minsubs"][l["sub"] - 1], sort_keys=True) == json.dumps(r["obs"]["minsubs"][rr["sub"] - 1], sort_keys=True)
+            sig["differ_in"] = "level" if l["lv"] != rr["lv"] else ("identity_only" if same_auto else "expression")
         word = "".join(chr(x) for x in d["word"])
         overlaps.setdefault(d["id"], set()).add("%s:%s" % (kinds, sig.get("differ_in")))
         v.mismatch(sig, "%s: at state %s the word `%s` is read by two items leading to states %s and %s: %s / %s" % (
